@@ -320,6 +320,12 @@ pub fn oracle_c11(c: &InvCtx) -> Option<Violation> {
 /// service is stopped (killed and reaped) when zinoma exits.
 pub fn oracle_c11_instances(c: &InvCtx) -> Option<Violation> {
     let r = c.r;
+    if let Some(a) = r.abnormal() {
+        // zinoma died (panic / abort): whatever service it had started and not stopped is orphaned
+        if let Some(p) = r.procs.iter().find(|p| p.kind == "service" && p.kill_seq.is_none() && p.exit.is_none()) {
+            return viol("service-orphaned-by-abnormal-exit", format!("service={} how={}", p.id, a), format!("zinoma ended abnormally ({}) while service {} was running: nothing stops it any more", a, p.id));
+        }
+    }
     if r.main_returned() {
         if let Some(f) = &r.footer {
             if let Some(p) = f.procs.iter().find(|p| p.kind == "service" && (p.state == "running" || (p.state == "killed" && !p.reaped))) {
@@ -765,7 +771,7 @@ impl Property for C11 {
     }
     fn generate(&self, rng: &mut Rng, _case: u64) -> Scenario {
         if rng.chance(30) {
-            return super::watch::gen_watch(rng, &super::watch::WatchOpts { service_bias: true, fail_pct: 25, ..Default::default() });
+            return super::watch::gen_watch(rng, &super::watch::WatchOpts { service_bias: true, fail_pct: 25, watch_fail_pct: 15, ..Default::default() });
         }
         let mut sc = gen::gen_graph(rng, &GraphOpts { max_n: 8, ..Default::default() });
         // make services more frequent
@@ -797,7 +803,12 @@ impl Property for C11 {
         if sc.label.starts_with("watch-") {
             let s = super::watch::run_session(sc, root, stats, |c| c.r.procs.iter().any(|p| p.kind == "service"))?;
             let c = InvCtx::new(sc, &s.inv, &s.r);
-            return oracle_c11_instances(&c);
+            if let Some(v) = oracle_c11_instances(&c) {
+                return Some(v);
+            }
+            // a service about to restart must tell the builds depending on it (they wait for the
+            // new instance instead of running against the one about to be stopped)
+            return super::watch::oracle_c01b(sc, &s.r).filter(|v| v.oracle == "out-of-date-not-announced" && v.witness.contains("kind=Service")).map(|v| Violation { oracle: format!("service-restart:{}", v.oracle), witness: v.witness, message: v.message });
         }
         eval_oneshot(sc, root, stats, oracle_c11, |c| c.r.procs.iter().any(|p| p.kind == "service"))
     }
